@@ -611,6 +611,8 @@ pub fn format_code(
 			);
 		}
 		ConvTypeV::Shorter => {
+			// Precision 0 is treated as 1, as in C and Python
+			let fpprec = fpprec.max(1);
 			let value = f64::from_untyped(value.clone())?;
 			let exponent = if value == 0.0 {
 				0.0
